@@ -27,6 +27,8 @@ import (
 )
 
 type vPKI struct {
+	srvMu  sync.Mutex
+	srvCfg map[string]*tls.Config // shared server configurations (one set of session-ticket keys each)
 	caPEM  map[string][]byte
 	caPool map[string]*x509.CertPool
 	certs  map[string]tls.Certificate
@@ -87,9 +89,84 @@ func vMakePKI() *vPKI {
 		leaf("selfsigned", nil, "srv.test", false)
 		leaf("expired-otherca", &ca2, "srv.test", true)
 		leaf("othername-otherca", &ca2, "other.test", false)
+		leaf("pairvalid", &ca1, "pair.test", false)
 		vThePKI = p
 	})
 	return vThePKI
+}
+
+// a server configuration shared by every connection that uses it (so that session tickets issued on one are honoured on another)
+func (p *vPKI) sharedServerConfig(certKind, scope string, max uint16) *tls.Config {
+	p.srvMu.Lock()
+	defer p.srvMu.Unlock()
+	if p.srvCfg == nil {
+		p.srvCfg = map[string]*tls.Config{}
+	}
+	key := fmt.Sprintf("%s/%s/%d", certKind, scope, max)
+	if c, ok := p.srvCfg[key]; ok {
+		return c
+	}
+	c := &tls.Config{Certificates: []tls.Certificate{p.certs[certKind]}, MaxVersion: max}
+	p.srvCfg[key] = c
+	return c
+}
+
+// two transports in one process dial the same host one after the other, each with its own constructor / roots, against a
+// server that honours session tickets across connections: each dial must be judged on its own configuration
+func vRunTLSPair(c vCase) string {
+	p := vMakePKI()
+	max := uint16(tls.VersionTLS13)
+	if c.get("tlsmax") == "12" {
+		max = tls.VersionTLS12
+	}
+	cfg := p.sharedServerConfig(c.get("cert"), c.id, max)
+	done := make(chan string, 8)
+	srv := func(conn net.Conn) {
+		defer conn.Close()
+		s := tls.Server(conn, cfg)
+		_ = s.SetDeadline(time.Now().Add(3 * time.Second))
+		if err := s.Handshake(); err != nil {
+			done <- "handshake-error"
+			return
+		}
+		if s.ConnectionState().DidResume {
+			done <- "resumed"
+		} else {
+			done <- "handshaken"
+		}
+		_ = s.SetDeadline(time.Time{})
+		_, _ = io.Copy(io.Discard, s)
+	}
+	var res []string
+	for i := 1; i <= 2; i++ {
+		cc := vCase{kind: "tls", id: c.id, kv: map[string]string{"host": c.get("host"), "timeout": c.get("timeout"),
+			"ctor": c.get(fmt.Sprintf("ctor%d", i)), "roots": c.get(fmt.Sprintf("roots%d", i)), "name": c.get(fmt.Sprintf("name%d", i)), "skip": "0"}}
+		d := &vScriptDialable{wrap: srv, tcp: true}
+		ct, _ := vBuildTLS(cc, p, d)
+		x, err := ct.Dial(context.Background())
+		sv := "none"
+		select {
+		case sv = <-done:
+		case <-time.After(300 * time.Millisecond):
+		}
+		if err == nil && ct.conn != nil {
+			// let the client process the session tickets a TLS 1.3 server sends after the handshake
+			_ = ct.conn.SetReadDeadline(time.Now().Add(40 * time.Millisecond))
+			var b [1]byte
+			_, _ = ct.conn.Read(b[:])
+			_ = ct.conn.SetReadDeadline(time.Time{})
+		}
+		res = append(res, fmt.Sprintf("%s/%v/%s", vClassifyTLSErr(err), x != nil, sv))
+		defer ct.Close()
+		defer func() {
+			d.mu.Lock()
+			for _, k := range d.conns {
+				k.Close()
+			}
+			d.mu.Unlock()
+		}()
+	}
+	return "results=" + strings.Join(res, ",")
 }
 
 // what the far end of a dialed connection does
@@ -319,6 +396,11 @@ func TestVerifC17(t *testing.T) {
 	sem := make(chan struct{}, 32)
 	for _, c := range cases {
 		c := c
+		if c.kind == "tlspair" {
+			// one after the other: a process-wide session cache would be keyed by host name
+			vGuard(out, c.kind, c.id, func() { out.printf("tlspair %s %s", c.id, vRunTLSPair(c)) })
+			continue
+		}
 		if c.kind == "tlsseq" {
 			wg.Add(1)
 			sem <- struct{}{}
